@@ -31,8 +31,8 @@ GROUPS = [
                     "nsubstitute"], []),
     ("C06.reorder", ["nreverse", "sort", "stable-sort"], []),
     ("C06.rplacd", ["rplacd", "rplacd-nil"],
-     ["C06-rplacd-overwrites-tail-cells", "C06-rplacd-nil-writes-tail-marker", "C06-extend-in-place-stale-prefix",
-      "C06-rplacd-shorter-exposes-cells"]),
+     ["C06-rplacd-in-place", "C06-rplacd-nil-writes-tail-marker", "C06-extend-in-place-stale-prefix", "C06-rplacd-shorter-exposes-cells",
+      ]),
     ("C06.extend", ["nconc", "nreconc", "add1", "add2", "addf", "addnew"], ["C06-extend-in-place-stale-prefix"]),
 ]
 
@@ -60,6 +60,8 @@ def shapes(name, maxlen, maxcap, lists):
             if two:
                 for e1 in range(0, maxlen + 1):
                     for sp1 in (0, 1):
+                        if lists == 2 and sp1 == 1 and e1 != 2:
+                            continue  # quick: the second operand's own spare capacity only once
                         if e1 + sp1 <= maxcap:
                             p1s.append((10 + e1, sp1))
             else:
@@ -124,11 +126,20 @@ def main():
             t = cases(ops, (4, 6), 3)
         obligations.append({
             "id": gid, "property": "C06", "pkg": "pkg/cl", "entry": "VerifC06Step",
-            "cases": {"quick": q, "thorough": t}, "reach": ["ran"], "carves": carves,
+            "cases": {"quick": q, "thorough": t}, "reach": ["ran"], "carved_out": carves,
             "overrides": OVERRIDES,
             "max_depth": 600, "max_steps": 40000000, "solver_timeout_ms": 10000,
             "note": NOTE % ", ".join(ops),
         })
+    obligations.append({
+        "id": "C06.findings", "property": "C06", "pkg": "pkg/cl", "entry": "VerifC06Step",
+        "cases": {"quick": FINDING_CASES, "thorough": FINDING_CASES}, "reach": ["ran"],
+        "carves": sorted(set(c for _, _, cs in GROUPS for c in cs)),
+        "overrides": OVERRIDES, "max_depth": 600, "max_steps": 40000000, "solver_timeout_ms": 10000,
+        "note": "witness cases for the known findings carved out of the C06 step obligations (same entry, same assertions): "
+                "the probe runs of ./check explore inside each region on these shapes only, so that a probe costs seconds; "
+                "the carve-outs themselves (assume not-region) act in every obligation that reaches the vrt.Carve call (listed there under carved_out).",
+    })
     path = os.path.join(os.path.dirname(os.path.abspath(__file__)), "..", "..", "obligations.d", "C06.json")
     extra = []
     xp = os.path.join(os.path.dirname(os.path.abspath(__file__)), "zz_verif_c06_extra.json")
@@ -142,6 +153,17 @@ def main():
 M = "github.com/ohler55/slip."
 OVERRIDES = {M + "ErrorNew": M + "zzC06StubErrorNew", M + "TypeErrorNew": M + "zzC06StubTypeErrorNew",
              "(*" + M + "Panic).AppendToStack": M + "zzC06StubAppendToStack", M + "WrapError": M + "zzC06StubWrapError"}
+FINDING_CASES = [
+    [OP["subseq"], 2, 1, 1, 0, -1, 0], [OP["subseq1"], 3, 0, 12, 1, -1, 0],          # re-slice; start > end fault
+    [OP["last"], 2, 1, 1, 0, -1, 0],                                                  # negative n fault
+    [OP["list*"], 2, 1, 1, 0, -1, 0],
+    [OP["revappend"], 0, 1, 11, 0, -1, 3], [OP["revappend"], 0, 2, 12, 0, -1, 3],
+    [OP["rplacd"], 2, 1, 1, 0, -1, 0], [OP["rplacd"], 3, 0, 1, 0, -1, 3], [OP["rplacd"], 3, 1, 11, 0, -1, 3],
+    [OP["rplacd-nil"], 2, 1, 1, 0, -1, 0], [OP["rplacd-nil"], 1, 0, 12, 1, -1, 0],
+    [OP["add1"], 2, 1, 1, 0, -1, 0], [OP["add2"], 1, 2, 12, 1, -1, 0], [OP["nconc"], 2, 2, 11, 0, -1, 3],
+    [OP["nreconc"], 2, 1, 11, 0, -1, 3], [OP["addf"], 2, 1, 1, 0, -1, 1], [OP["addnew"], 2, 1, 1, 0, -1, 0],
+    [OP["rplacd"], 1, 1, 11, 0, -1, 3],
+]
 QUICK_SPARES = [0, 1, 2]
 THOROUGH_SPARES = [0, 1, 2]
 NOTE = ("operations: %s. One step from a pool of lists built as slip.List re-slices of 1-2 backing arrays (pool invariant I: "
